@@ -90,6 +90,12 @@ Definition s_is (a b : sval) : res bool :=
   | _, _ => Fail Stuck
   end.
 
+(* `get e` of nil is a failure; of anything else, the value *)
+Definition s_unwrap (v : sval) : res sval := match v with SNil => Fail Err | _ => Ok v end.
+
+(* an object that went through a map is the same object *)
+Definition s_wrap (v : sval) : res sval := match v with SObj _ => Ok v | _ => Fail Stuck end.
+
 Definition s_lnew (ss : sstate) (xs : list sval) : sstate * sval :=
   ({| s_objs := s_objs ss; s_nobj := s_nobj ss; s_lists := upd (s_lists ss) (s_nlist ss) xs;
       s_nlist := s_nlist ss + 1; s_env := s_env ss |}, SList (s_nlist ss)).
@@ -115,7 +121,7 @@ Definition s_lwrite (ss : sstate) (v : sval) (xs : list sval) : res sstate :=
 
 Definition spec : iface sstate sval :=
   {| i_get := s_get; i_set := s_set; i_lit := s_lit; i_scalar := s_scalar; i_recv := s_recv; i_cls := s_cls;
-     i_fread := s_fread; i_fwrite := s_fwrite; i_new := s_new; i_is := s_is;
+     i_fread := s_fread; i_fwrite := s_fwrite; i_new := s_new; i_is := s_is; i_unwrap := s_unwrap; i_wrap := s_wrap;
      i_lnew := s_lnew; i_lread := s_lread; i_lwrite := s_lwrite |}.
 
 Definition sstep (ct : ctab) (ss : sstate) (c : oop) : res (sstate * list oval) := gstep spec ct ss c.
